@@ -250,7 +250,7 @@ def get_strategy_base():
 
         def _declare_exits(self, hook, which=('sl', 'tp'), partial=False):
             p = self.position
-            if p.is_close:
+            if p.is_close or self._prog.get('inert'):
                 return
             side = p.type
             qty = abs(float(p.qty))
